@@ -53,9 +53,19 @@ class Collector:
         self.obs = []
         self.analysed_functions = set()
         self.notes = []
+        # rule -> predicate(function name): obligations of a shared rule
+        # that concern functions outside this property's scope are not
+        # this property's business
+        self.scope = {}
+        self.out_of_scope = 0
 
     def add(self, rule, file, func, role, node, status, why=''):
         o = Obligation(rule, file, func, role, node, status, why)
+        pred = self.scope.get(rule)
+        if pred is not None and func and not func.startswith('<') and \
+                not pred(func):
+            self.out_of_scope += 1
+            return o
         self.obs.append(o)
         if func:
             self.analysed_functions.add('%s:%s' % (file, func))
